@@ -777,6 +777,14 @@ func (e *Env) call(n *ast.CallExpr) *Val {
 		nv, ov := arg(0), arg(1)
 		return boolVal(or(and(eq(app("lref", nv.Term), app("lref", ov.Term)), eq(app("loff", nv.Term), app("loff", ov.Term)), eq(app("lcap", nv.Term), app("lcap", ov.Term))),
 			app(">=", app("lref", nv.Term), c.next(e.old))))
+	case "same":
+		// same(a, b): a and b are the very same value (for strings: the same string header, not merely
+		// equal content; what an assignment b = a establishes)
+		nv, ov := arg(0), arg(1)
+		if nv.Term == "" || ov.Term == "" {
+			fail("same of composite")
+		}
+		return boolVal(eq(nv.Term, ov.Term))
 	case "sameobject":
 		nv, ov := arg(0), arg(1)
 		return boolVal(eq(app("lref", nv.Term), app("lref", ov.Term)))
